@@ -253,6 +253,7 @@ func runC10(c *Ctx) {
 
 	ruleArgumentOnlyWhenUnsupplied(c, "C10.3")
 	ruleRequestedTypeIsPrinted(c, "C10.4")
+	ruleProviderTypeResultsFresh(c, "C10.7")
 	// suppliers and requirements meet under one key (otherwise a supplied type becomes a parameter)
 	c09SupplierMap(c, "C10.3")
 	ruleIsContextType(c, "C10.6")
